@@ -299,6 +299,7 @@ class Composition(Loggable):
                     chain[comp] = (local_time - dep.time, delayed)
                     return self._update_recursive(c, chain)
             else:
+                chain[comp] = (None, delayed)
                 updated = self._update_recursive(c, chain, local_time)
                 if updated is not None:
                     return updated
